@@ -742,8 +742,15 @@ def apply(ctx, res, prop, floor=None):
     n = 0
     for rec in d["records"]:
         if rec["prop"] == "E3":
-            # the interpreter gave up on an entry point: every property that relies on it fails closed
-            res.violate("E3:" + rec["key"], rec["desc"], rec["loc"], {}, "E3 abstract interpreter")
+            # the interpreter gave up on an entry point: every property with obligations on that entry point fails closed
+            ep = rec["key"].split("::")[-1]
+            general = ("C01", "C02", "C05", "C07", "C16")
+            specific = {"insert": ("C03", "C04", "C10", "C13"), "try_insert": ("C04", "C10", "C13"), "mutate": ("C03", "C11"),
+                        "set_max_size": ("C03",), "retain": ("C15",), "reserve": ("C13", "C04"), "try_reserve": ("C13", "C04"),
+                        "shrink_to": ("C13", "C04"), "shrink_to_fit": ("C13", "C04"), "clone": ("C14", "C04"), "drain": ("C12", "C17"),
+                        "next": ("C12",), "next_back": ("C12",), "drop": ("C12", "C17")}
+            if prop in general or prop in specific.get(ep, ()):
+                res.violate("E3:" + rec["key"], rec["desc"], rec["loc"], {}, "E3 abstract interpreter")
             continue
         shared = (prop == "C02" and rec["prop"] == "C16" and rec["key"].endswith(":CS=G")) or \
                  (prop == "C07" and rec["prop"] == "C16" and (rec["key"].endswith(":no-link-into-unowned-table") or
